@@ -59,24 +59,24 @@ type respMutation struct {
 }
 
 type fakeRegistry struct {
-	mu         sync.Mutex
-	prof       regProfile
-	repos      map[string]*regRepo
-	log        []reqLog
-	srv        *httptest.Server
-	uploadN    int
-	failNext   map[string]int // "METHOD path-prefix" -> status to return once
+	mu       sync.Mutex
+	prof     regProfile
+	repos    map[string]*regRepo
+	log      []reqLog
+	srv      *httptest.Server
+	uploadN  int
+	failNext map[string]int // "METHOD path-prefix" -> status to return once
 	// faults on the referrers tag schema's index maintenance (not retried by the client: 4xx)
 	denyIndexDelete  bool // DELETE of an image index is refused with 405
 	failIndexPutOnce bool // the next PUT under a sha256-<hex> referrers tag is refused with 403
-	corrupt    func(w http.ResponseWriter, r *http.Request) bool
-	hook       func(r *http.Request)
-	served     [][]string // pages served by the listing endpoints, in order
-	servedNext []bool
-	servedLast []string      // the `last` value each Link header carried ("" when no link)
-	padBody    int           // extra bytes of JSON padding inside listing documents
-	mutate     *respMutation // applied to the next response that is not referrers maintenance, then cleared
-	badReq     []string      // requests the distribution specification does not allow
+	corrupt          func(w http.ResponseWriter, r *http.Request) bool
+	hook             func(r *http.Request)
+	served           [][]string // pages served by the listing endpoints, in order
+	servedNext       []bool
+	servedLast       []string      // the `last` value each Link header carried ("" when no link)
+	padBody          int           // extra bytes of JSON padding inside listing documents
+	mutate           *respMutation // applied to the next response that is not referrers maintenance, then cleared
+	badReq           []string      // requests the distribution specification does not allow
 }
 
 func newFakeRegistry(p regProfile) *fakeRegistry {
